@@ -69,9 +69,13 @@ def run_check(pid, tier, seed, table, no_proofs=False):
     samples = []
     seen = set()
     nontrivial = 0
+    kpairs = []
+    want_kernel = os.environ.get("OSV_KERNEL", "1") == "1"
     for suite_name, kwargs, proj, n in spec["corr"]:
         cases = table.build_suite(suite_name, rng, n * mult, tier, **kwargs)
         mo = enc.run_model(cases)
+        if want_kernel and suite_name in ("order", "validate", "ops"):
+            kpairs.extend((suite_name, c, m) for c, m in zip(cases, mo))
         for c, m in zip(cases, mo):
             i = impl.run_case(c)
             corr_cases += 1
@@ -92,6 +96,18 @@ def run_check(pid, tier, seed, table, no_proofs=False):
                                  "impl": _strip(i), "model": m})
         if cases and len(samples) < 4:
             samples.append({"suite": suite_name, "driver_line": enc.case_line(cases[len(cases) // 2])[:600]})
+    # ---------------- 3b. (thorough) the discrete entry points evaluated inside Coq on the same cases
+    kres = None
+    if kpairs:
+        from . import kernel
+        kres = kernel.run([(c, m) for _, c, m in kpairs][:(2500 if tier == "quick" else 40000)])
+        for idx in kres["disagreements"][:5]:
+            sn, c, m = kpairs[idx]
+            corr_bad.append({"suite": sn + " (in-kernel)", "case": c, "line": enc.case_line(c),
+                             "diffs": ["kernel evaluation (vm_compute) differs from the extracted model"], "impl": {}, "model": m})
+        if kres["error"]:
+            corr_bad.append({"suite": "in-kernel", "case": {}, "line": "", "diffs": ["coqc failed on generated cases: " + kres["error"][-400:]],
+                             "impl": {}, "model": {}})
     # ---------------- 4. monitor
     mon = None
     mon_budget = spec.get("mon_budget", 1500) * mult
@@ -171,6 +187,8 @@ def run_check(pid, tier, seed, table, no_proofs=False):
         "correspondence": {"cases": corr_cases, "disagreements": len(corr_bad), "max_ulp_distance": stats.max_ulp,
                            "floats_compared": stats.floats, "projection": [s[2] and sorted(s[2]) for s in spec["corr"]],
                            "suites": [s[0] for s in spec["corr"]], "distribution": dist},
+        "in_kernel_correspondence": kres and {"evaluated_by_vm_compute": kres["evaluated"], "files": kres["files"],
+                                              "disagreements": len(kres["disagreements"]), "error": kres["error"]},
         "monitor": {"evaluations": mon.evaluations if mon else 0, "distinct_nontrivial": mon.nontrivial if mon else 0,
                     "failures": len(mon_fail), "distribution": mon.dist if mon else {}, "search_evaluations": searched},
         "known_findings_reported": sorted({k["id"] for k, _ in reported_known}),
